@@ -24,11 +24,17 @@ func VerifC12Crash() {
 			h.repo.Clean(h.ctx)
 		}
 	}
-	if err := h.repo.Save(h.ctx); err != nil {
-		verifAssert(false, "save-returns-error")
-		return
+	savedWork := new(big.Int)
+	if verifParam("saved", 0) == 1 || !nondetBool("nothing-saved-yet") {
+		if err := h.repo.Save(h.ctx); err != nil {
+			verifAssert(false, "save-returns-error")
+			return
+		}
+		savedWork.Set(h.repo.AccumulatedWork())
+	} else {
+		// first run: storage has never seen a completed Save (no branch index yet)
+		verifReach("first-save-or-clean-crashes")
 	}
-	savedWork := new(big.Int).Set(h.repo.AccumulatedWork())
 	for s := 0; s < post; s++ {
 		if pick(fmt.Sprintf("post%d", s), 2) == 0 {
 			h.submit()
